@@ -80,6 +80,112 @@ class Variant:
         return out
 
 
+def apply_unified_diff(files: Dict[str, str], diff: str) -> Optional[Dict[str, str]]:
+    """Apply a git unified diff to an in-memory {path: text} map.  Every hunk must match its context exactly (searched
+    near its stated position); returns the changed files, or None when a hunk does not apply to this tree."""
+    out: Dict[str, str] = {}
+    cur_path = None
+    hunks: Dict[str, list] = {}
+    lines = diff.splitlines()
+    i = 0
+    while i < len(lines):
+        ln = lines[i]
+        if ln.startswith('+++ '):
+            cur_path = ln[4:].strip()
+            cur_path = cur_path[2:] if cur_path.startswith('b/') else cur_path
+            hunks.setdefault(cur_path, [])
+        elif ln.startswith('@@') and cur_path is not None:
+            import re as _re
+            m = _re.match(r'@@ -(\d+)(?:,(\d+))? \+(\d+)(?:,(\d+))? @@', ln)
+            if not m:
+                return None
+            start = int(m.group(1))
+            body = []
+            i += 1
+            while i < len(lines) and not lines[i].startswith(('@@', 'diff --git', '--- ', '+++ ')):
+                if lines[i].startswith('\\'):
+                    i += 1
+                    continue
+                body.append(lines[i])
+                i += 1
+            hunks[cur_path].append((start, body))
+            continue
+        i += 1
+    for path, hs in hunks.items():
+        if path == '/dev/null':
+            return None
+        text = files.get(path)
+        if text is None:
+            return None
+        src = text.split('\n')
+        delta = 0
+        for start, body in hs:
+            old = [b[1:] for b in body if b[:1] in (' ', '-')]
+            new = [b[1:] for b in body if b[:1] in (' ', '+')]
+            old = [o for o in old]
+            pos = None
+            guess = start - 1 + delta
+            for off in sorted(range(-40, 41), key=abs):
+                k = guess + off
+                if 0 <= k <= len(src) - len(old) and src[k:k + len(old)] == old:
+                    pos = k
+                    break
+            if pos is None:
+                return None
+            src[pos:pos + len(old)] = new
+            delta += len(new) - len(old)
+        out[path] = '\n'.join(src)
+    return out
+
+
+class PatchVariant(Variant):
+    """A breaking variant given as a unified diff (the independently seeded changes under /verif/seeded)."""
+
+    def __init__(self, name: str, diff_path: str, expect: Optional[str], note: str = ''):
+        super().__init__(name, 'break', [], expect, note, 'pass')
+        self.diff_path = diff_path
+
+    def build(self, ss: SourceSet) -> Optional[SourceSet]:
+        try:
+            with open(self.diff_path, encoding='utf-8') as fh:
+                diff = fh.read()
+        except OSError:
+            return None
+        changed = apply_unified_diff(ss.files, diff)
+        if not changed:
+            return None
+        out = ss
+        for path, text in changed.items():
+            out = out.replace(path, text, label=f'variant:{self.name}')
+            if path.endswith('.py'):
+                try:
+                    compile(text, path, 'exec')
+                except SyntaxError:
+                    return None
+        return out
+
+
+def seeded_variants(prop_id: str) -> List[Variant]:
+    """The seeded changes this property's check is recorded (meta.json: checks_fired) to report.  The expectation is the
+    table committed with the change; a change whose patch no longer applies to the tree is skipped."""
+    import glob
+    import json as _json
+    out: List[Variant] = []
+    root = os.path.join(os.path.dirname(os.path.dirname(os.path.abspath(__file__))), 'seeded')
+    for mp in sorted(glob.glob(os.path.join(root, 'C*', '*', 'meta.json'))):
+        try:
+            with open(mp, encoding='utf-8') as fh:
+                meta = _json.load(fh)
+        except (OSError, ValueError):
+            continue
+        if prop_id not in meta.get('checks_fired', []):
+            continue
+        d = os.path.dirname(mp)
+        name = 'seeded-' + os.path.relpath(d, root).replace(os.sep, '-')
+        out.append(PatchVariant(name, os.path.join(d, 'patch.diff'), prop_id, meta.get('summary', '')[:100]))
+    return out
+
+
 def _run_variant(args):
     prop_id, ss, v, base_keys = args
     try:
@@ -109,7 +215,7 @@ def _run_variant(args):
 
 def selftest(prop_id: str, ss: SourceSet, base: Report, jobs: int = 16) -> Dict[str, Any]:
     mod = load_prop(prop_id)
-    variants: List[Variant] = list(getattr(mod, 'VARIANTS', []))
+    variants: List[Variant] = list(getattr(mod, 'VARIANTS', [])) + seeded_variants(prop_id)
     base_keys = {f.key for f in base.findings}
     work = [(prop_id, ss, v, base_keys) for v in variants]
     if not work:
